@@ -60,11 +60,20 @@ def monitored_battery(sut, rng, stats, out, t=None, probes=None, lite=False):
                 out.append(D(["C14"], "store-bytes-changed-by-read-only-request", call=name))
 
     foreign = []
+    W0 = M.WRITES[0]
+    D0 = M.store_digest(t)
+    n_alarms = len(out)
     try:
         ans, (n_ok, n_ref, n_exc) = B.run(t, probes, around=around, foreign=foreign, lite=lite)
     except B.MonitorAlarm as e:
         out.append(D(["C14"], "write-event-in-read-only-request", msg=str(e)))
         return
+    finally:
+        # the battery itself enumerates pages and prefixes to choose its arguments (pages_iter,
+        # webentity_prefix_iter): those reads are inside this outer window
+        if len(out) == n_alarms and (M.WRITES[0] != W0 or M.store_digest(t) != D0):
+            out.append(D(["C14"], "write-event-in-read-only-request", call="pages_iter / webentity_prefix_iter (enumeration that opens the battery)",
+                         events=M.WRITES[0] - W0))
     stats["C14_calls_succeeded"] += n_ok
     stats["C14_calls_refused_with_library_error"] += n_ref
     stats["C14_calls_foreign_exception"] += n_exc
